@@ -90,6 +90,26 @@ def real_run(ctx, binp, wd, what, n, nproc=8, maxlen=9000, enum_stride=0):
             os.remove(tp + ".cur")
         if os.path.exists(tp):
             files.append(tp)
+    # a driver that died (fatal error: stack overflow, out of memory) may leave a torn last line behind
+    for tp in files:
+        with open(tp, "rb+") as f:
+            f.seek(0, os.SEEK_END)
+            size = f.tell()
+            if size == 0:
+                continue
+            back = min(size, 1 << 20)
+            f.seek(size - back)
+            tail = f.read(back)
+            if tail.endswith(b"\n"):
+                last = tail[:-1].rsplit(b"\n", 1)[-1]
+                try:
+                    json.loads(last)
+                    continue
+                except ValueError:
+                    cut = size - len(last) - 1
+            else:
+                cut = size - len(tail.rsplit(b"\n", 1)[-1])
+            f.truncate(cut)
     if crashes:
         with open(files[0], "a") as out:
             for c in crashes:
